@@ -14,7 +14,7 @@ using refisa::Machine; using refisa::Env;
 static Ctx ctx;
 
 struct Prog {
-  std::string name, file, input;
+  std::string name, file, input; bool large = false;
   std::string expOut; uint32_t expExit = 0; size_t expConsumed = 0;
   std::vector<std::pair<uint32_t, uint32_t>> finalWrites;  // word -> final value (reference run)
   uint32_t imageWords = 0;
@@ -128,6 +128,14 @@ int main(int argc, char **argv) {
     if (r.kind) harness_fail("cannot assemble regs-from-reset program");
     Prog p; p.name = "regs-from-reset"; p.file = r.file; p.input = ""; progs.push_back(p);
   }
+  {
+    // an image larger than 200000 bytes whose far end is read: every word of it must have been loaded, whatever the memory held before
+    std::string src = "BR start\nDATA 150000\nstart\nLDAM 60010\nLDBM 1\nSTAI 2\nLDAM 30000\nLDBM 1\nSTAI 3\nLDAC 0\nOPR SVC\n"; src.reserve(700000);
+    for (int i = 0; i < 60020; i++) src += i == 30000 - 6 || i == 30000 - 5 || i == 30000 - 4 ? "DATA 0\n" : "DATA 75\n";
+    auto r = ad::assemble_text(src, ad::A_FILE, ctx.scratch + "/p.bin");
+    if (r.kind) harness_fail("cannot assemble the large-image program");
+    Prog p; p.name = "large-image"; p.file = r.file; p.input = ""; p.large = true; progs.push_back(p);
+  }
   unlink((ctx.scratch + "/p.bin").c_str());
   for (auto &p : progs) {
     auto img = refisa::parseImage(p.file); p.imageWords = img.nwords;
@@ -150,6 +158,7 @@ int main(int argc, char **argv) {
   bool th = ctx.thorough();
   for (int pi = 0; pi < (int)progs.size(); pi++) {
     cases.push_back({pi, Plant{0, 0, 0, 0, 0, 0, 0, 0}});
+    if (progs[pi].large) { for (unsigned s = 1; s <= (th ? 200u : 24u); s++) cases.push_back({pi, Plant{3, 0, 0, 0, 0, 0, 0, s}}); continue; }   // only the clean start and Verilator's randomisation
     // (a) power-on pc outside the image, first fetched bytes (b1,b2)
     std::vector<int> b2four = {0xD3, 0x22, 0x30, 0x90}, b2all; for (int b = 0; b < 256; b++) b2all.push_back(b);
     // register corners: quick 6, quick 9, thorough all 126 for program 1 (all byte pairs for 42 of them) and 18 for the others
